@@ -205,7 +205,7 @@ InterRowI(x) == LET r == InterRow(x) IN
                 IF D("parTrunc") /\ Len(x.par) > 1
                 THEN Line("row", x.comment, LET a == StrSeq(WriterOrient(x.sec, x.atoms)) IN
                                             IF x.sec = "virtual_sitesn" THEN <<a[1], x.par[1]>> \o Tail(a) ELSE a \o <<x.par[1]>>)
-                ELSE IF D("noCanonCare") /\ x.sec = "constraints" THEN [r EXCEPT !.t = StrSeq(Reverse(x.atoms)) \o x.par]
+                ELSE IF D("canonConstraints") /\ x.sec = "constraints" THEN [r EXCEPT !.t = StrSeq(Reverse(x.atoms)) \o x.par]
                 ELSE r
 WriteInteraction == /\ pc = "lines" /\ pend # <<>>
                     /\ \E i \in DOMAIN pend :
